@@ -47,6 +47,9 @@ var (
 	RtBurn = []byte{0x30, 0xff}
 	// init code that reverts
 	InitRevert = []byte{0x60, 0x00, 0x60, 0x00, 0xfd}
+	// called without value: CALLs ITSELF with 7 mo of its own balance (sender == recipient of a value
+	// transfer inside the EVM); called with value (the inner call): STOP
+	RtSelfPay = []byte{0x34, 0x60, 0x12, 0x57, 0x60, 0x00, 0x60, 0x00, 0x60, 0x00, 0x60, 0x00, 0x60, 0x07, 0x30, 0x5a, 0xf1, 0x00, 0x5b, 0x00}
 )
 
 // RtForward forwards the call value to `to`.
@@ -134,7 +137,7 @@ func NewWorld(dir string) *World {
 	}
 	var b2 types.Transactions
 	b2 = append(b2, deploy("counter", RtCounter), deploy("revert", RtRevert), deploy("invalid", RtInvalid), deploy("burn", RtBurn),
-		deploy("forward", RtForward(U1.Addr)), deploy("fwdrevert", RtForwardThenRevert(U1.Addr)), deploy("destruct", RtDestructTo(U1.Addr)))
+		deploy("forward", RtForward(U1.Addr)), deploy("fwdrevert", RtForwardThenRevert(U1.Addr)), deploy("destruct", RtDestructTo(U1.Addr)), deploy("selfpay", RtSelfPay))
 	b2 = append(b2, node.Register(Cand1, params.MinCandidateDeposit, node.CandidateProfile(Cand1, "7100"), next()))
 	asset := map[string]interface{}{"category": 1, "isDivisible": true, "decimal": 2, "isReplenishable": true, "profile": map[string]string{"name": "tok", "symbol": "TK", "description": "d", "suggestedGasLimit": "60000"}}
 	ad, _ := json.Marshal(asset)
@@ -155,7 +158,7 @@ func NewWorld(dir string) *World {
 
 // Menu is the ordered alphabet of transaction names (simplest first).
 var Menu = []string{
-	"xfer", "xfer-new", "call-counter", "call-revert", "call-invalid", "call-forward", "call-fwdrevert", "call-destruct", "call-burn",
+	"xfer", "xfer-new", "xfer-self", "call-selfpay", "call-counter", "call-revert", "call-invalid", "call-forward", "call-fwdrevert", "call-destruct", "call-burn",
 	"create-ok", "create-revert", "create-oog", "vote-d0", "vote-c1", "register-u1-poor", "topup-c1", "unregister-c1",
 	"asset-issue", "asset-replenish", "asset-freeze", "asset-transfer", "multisig-xfer", "multisig-reset", "payer-xfer", "box-ok", "box-failing-sub",
 }
@@ -171,6 +174,8 @@ func (w *World) mkMenu() {
 	t := w.txs
 	t["xfer"] = node.Transfer(U0, U1.Addr, node.Lemo(250), Exp)
 	t["xfer-new"] = node.Transfer(U0, Fresh.Addr, node.Lemo(1), Exp)
+	t["xfer-self"] = node.Transfer(U0, U0.Addr, node.Lemo(5), Exp) // sender == recipient
+	t["call-selfpay"] = call("selfpay", U0, nil)
 	t["call-counter"] = call("counter", U0, nil)
 	t["call-revert"] = call("revert", U0, nil)
 	t["call-invalid"] = call("invalid", U0, node.Lemo(1))
